@@ -4,6 +4,7 @@
 package zzrt
 
 import (
+	"reflect"
 	"encoding/hex"
 	"encoding/json"
 	"fmt"
@@ -246,4 +247,80 @@ func RunReplay(t *testing.T, fns map[string]func()) {
 		out, _ := json.Marshal(r)
 		fmt.Printf("ZZRT-RESULT %s\n", out)
 	}
+}
+
+// Flatten: every integer/bool scalar reachable through struct fields, arrays and pointers.
+func Flatten(v any) []uint64 {
+	out := []uint64{}
+	var walk func(rv reflect.Value, depth int)
+	walk = func(rv reflect.Value, depth int) {
+		if depth > 12 {
+			return
+		}
+		switch rv.Kind() {
+		case reflect.Bool:
+			if rv.Bool() {
+				out = append(out, 1)
+			} else {
+				out = append(out, 0)
+			}
+		case reflect.Int, reflect.Int8, reflect.Int16, reflect.Int32, reflect.Int64:
+			bits := rv.Type().Bits()
+			out = append(out, uint64(rv.Int())&(^uint64(0)>>(64-uint(bits))))
+		case reflect.Uint, reflect.Uint8, reflect.Uint16, reflect.Uint32, reflect.Uint64, reflect.Uintptr:
+			out = append(out, rv.Uint())
+		case reflect.Struct:
+			for i := 0; i < rv.NumField(); i++ {
+				walk(rv.Field(i), depth+1)
+			}
+		case reflect.Array:
+			for i := 0; i < rv.Len(); i++ {
+				walk(rv.Index(i), depth+1)
+			}
+		case reflect.Pointer:
+			if !rv.IsNil() {
+				walk(rv.Elem(), depth+1)
+			}
+		}
+	}
+	walk(reflect.ValueOf(v), 0)
+	return out
+}
+
+// FillSymbolic: every integer/bool scalar field reachable through nested structs and
+// arrays (not through pointers) is set from the replay vector.
+func FillSymbolic(ptr any) {
+	var walk func(rv reflect.Value)
+	walk = func(rv reflect.Value) {
+		switch rv.Kind() {
+		case reflect.Bool:
+			setField(rv, func(x reflect.Value) { x.SetBool(next()&1 == 1) })
+		case reflect.Int, reflect.Int8, reflect.Int16, reflect.Int32, reflect.Int64:
+			bits := rv.Type().Bits()
+			v := next()
+			sh := 64 - uint(bits)
+			setField(rv, func(x reflect.Value) { x.SetInt(int64(v<<sh) >> sh) })
+		case reflect.Uint, reflect.Uint8, reflect.Uint16, reflect.Uint32, reflect.Uint64, reflect.Uintptr:
+			v := next()
+			setField(rv, func(x reflect.Value) { x.SetUint(v) })
+		case reflect.Struct:
+			for i := 0; i < rv.NumField(); i++ {
+				walk(rv.Field(i))
+			}
+		case reflect.Array:
+			for i := 0; i < rv.Len(); i++ {
+				walk(rv.Index(i))
+			}
+		}
+	}
+	walk(reflect.ValueOf(ptr).Elem())
+}
+
+func setField(rv reflect.Value, f func(reflect.Value)) {
+	if rv.CanSet() {
+		f(rv)
+		return
+	}
+	// unexported field of an addressable struct
+	f(reflect.NewAt(rv.Type(), rv.Addr().UnsafePointer()).Elem())
 }
